@@ -18,6 +18,9 @@ ValStr(t) ==
     CASE t.k = "lit" -> t.v
       [] t.k = "un" /\ t.op = "vuv" -> "nil"
       [] t.k = "nul" /\ t.op = "vnv" -> "nil"
+      \* vbt is defined for (number, array) only; its operands are handed over in the order of the reading, so the other
+      \* order is an error and there is no value
+      [] t.k = "bin" /\ t.op = "vbt" /\ ~(t.l.k = "lit" /\ t.r.k = "arr") -> "<unset>"
       [] t.k = "nul" -> "[\"" \o t.op \o "\"]"
       [] t.k = "un" -> "[\"" \o t.op \o "\"," \o ValStr(t.x) \o "]"
       [] t.k = "bin" -> "[\"" \o t.op \o "\"," \o ValStr(t.l) \o "," \o ValStr(t.r) \o "]"
